@@ -2,4 +2,4 @@ From Coq Require Import Extraction ExtrOcamlBasic ExtrOcamlString NArith.
 From Oras Require Import Model.CopyImpl Model.CopyImplDst.
 Extraction Language OCaml.
 (* N.succ only so that the types positive / n used by ml/common.ml exist *)
-Extraction "xcopyimpl.ml" N.succ step init result is_final holders inflight enabled is_done run progress_label dstep dinit dst_of_list drun denabled dprogress_label.
+Extraction "xcopyimpl.ml" N.succ step init result is_final holders inflight enabled is_done run progress_label dstep dinit dclosedb drun.
